@@ -1,4 +1,5 @@
 import XmpModel.Container
+import XmpModel.Lzw
 /-!
 # MMCMP ("ziRCONia") files as read by `decrunch_mmcmp` (src/depackers/mmcmp.c), model for C08
 
@@ -21,19 +22,21 @@ def mmBlockCopy : List (Nat × Nat) → Bytes → Bytes → Option Bytes
     else if s.length < size then none
     else mmBlockCopy subs (s.drop size) (mmWriteAt out pos (s.take size))
 
-/-- read `n` sub-block descriptors at `ofs` -/
-def mmSubs (f : Bytes) : Nat → Nat → Option (List (Nat × Nat))
-  | 0, _ => some []
-  | n + 1, ofs =>
+/-- read `n` sub-block descriptors at `ofs`; `budget` = `h.filesize - total_unpk`: the sizes of all sub-blocks of all
+    blocks together must not exceed the unpacked file size (/repo 353a4b5).  Returns the descriptors and the budget left. -/
+def mmSubs (f : Bytes) : Nat → Nat → Nat → Option (List (Nat × Nat) × Nat)
+  | 0, _, budget => some ([], budget)
+  | n + 1, ofs, budget =>
     if f.length < ofs + 8 then none
     else if u32At f ofs ≥ 2 ^ 31 ∨ u32At f (ofs + 4) ≥ 2 ^ 31 then none
-    else (mmSubs f n (ofs + 8)).map (fun r => (u32At f ofs, u32At f (ofs + 4)) :: r)
+    else if u32At f (ofs + 4) > budget then none
+    else (mmSubs f n (ofs + 8) (budget - u32At f (ofs + 4))).map (fun r => ((u32At f ofs, u32At f (ofs + 4)) :: r.1, r.2))
 
 /-- the block loop; `dec flags numBits ttEntries subs stream out` = `block_unpack_8bit/16bit` -/
 def mmBlocks (dec : Nat → Nat → Nat → List (Nat × Nat) → Bytes → Bytes → Option Bytes) (f : Bytes) :
-    List Nat → Bytes → Option Bytes
-  | [], out => some out
-  | bo :: rest, out =>
+    List Nat → Nat → Bytes → Option Bytes
+  | [], _, out => some out
+  | bo :: rest, budget, out =>
     if f.length < bo + 20 then none
     else
       let unpk := u32At f bo
@@ -47,14 +50,132 @@ def mmBlocks (dec : Nat → Nat → Nat → List (Nat × Nat) → Bytes → Byte
       else if nsub = 0 then none
       else if flags % 2 = 1 ∧ ((flags / 4 % 2 = 1 ∧ numBits ≥ 16) ∨ (flags / 4 % 2 = 0 ∧ numBits ≥ 8)) then none
       else
-        match mmSubs f nsub (bo + 20) with
+        match mmSubs f nsub (bo + 20) budget with
         | none => none
-        | some subs =>
+        | some (subs, budget) =>
           let stream := f.drop (bo + 20 + 8 * nsub)
           let out? := if flags % 2 = 0 then mmBlockCopy subs stream out else dec flags numBits tt subs stream out
           match out? with
           | none => none
-          | some out => mmBlocks dec f rest out
+          | some out => mmBlocks dec f rest budget out
+
+/-! ## compressed blocks (`block_unpack_8bit`, `block_unpack_16bit`)
+
+`get_bits` delivers the input LSB first; `hio_read8` returns 0xFF past the end of the file.  The 32-bit window
+`bb.buffer` (refilled to ≥ 24 bits before every read of ≤ 16 bits) is abstracted to a bit position.  `mem_write8`
+drops bytes once `out->pos` has reached the buffer size (the C ignores its return value). -/
+
+def mmBitAt (s : Array UInt8) (i : Nat) : Nat := (match s[i / 8]? with | some b => b.toNat | none => 0xff) / 2 ^ (i % 8) % 2
+
+/-- `get_bits(in, n, &bb)` at bit position `pos` -/
+def mmGet (s : Array UInt8) : Nat → Nat → Nat
+  | _, 0 => 0
+  | pos, n + 1 => mmBitAt s pos + 2 * mmGet s (pos + 1) n
+
+structure MmSt where
+  pos : Nat                -- bit position in the packed stream
+  numbits : Nat
+  j : Nat                  -- current sub-block
+  p : Nat                  -- `pos`: bytes produced for the current sub-block
+  oldval : Nat             -- delta predictor: carried through the whole block
+  opos : Nat               -- `out->pos`
+  out : Array UInt8
+
+def mmWrite8 (st : MmSt) (v : Nat) : MmSt :=
+  if st.opos ≥ st.out.size then st else { st with out := st.out.set! st.opos (UInt8.ofNat v), opos := st.opos + 1 }
+
+/-- end of a loop iteration: `if (pos >= size) { if (++j >= sub_blk) break; pos = 0; mem_seek(out, sub[j].unpk_pos) }`;
+    `none` = mem_seek failed (-1), `some (st, true)` = the block is complete -/
+def mmNextSub (subs : List (Nat × Nat)) (st : MmSt) : Option (MmSt × Bool) :=
+  if st.p ≥ (subs.getD st.j (0, 0)).2 then
+    if st.j + 1 ≥ subs.length then some (st, true)
+    else
+      let np := (subs.getD (st.j + 1) (0, 0)).1
+      if np ≥ st.out.size then none else some ({ st with j := st.j + 1, p := 0, opos := np }, false)
+  else some (st, false)
+
+/-- the code reader shared by both widths at bit position `pos` with code width `numbits`: result
+    `some none` = width change, `some (some v)` = a value, `none` = end marker; then the new position and width.
+    `esc` = number of bits of the escape code (3 / 4), `top` = first value coded by the escape. -/
+def mmReadCode (s : Array UInt8) (cmd fetch : List Nat) (mask esc top : Nat) (pos numbits : Nat) :
+    Option (Option Nat) × Nat × Nat :=
+  let d := mmGet s pos (numbits + 1)
+  let pos := pos + numbits + 1
+  let c := cmd.getD numbits 0
+  if d ≥ c then
+    let f := fetch.getD numbits 0
+    let nb := mmGet s pos f + (d - c) * 2 ^ f
+    let pos := pos + f
+    if nb ≠ numbits then (some none, pos, nb % mask)
+    else
+      let d2 := mmGet s pos esc
+      let pos := pos + esc
+      if d2 = 2 ^ esc - 1 then
+        (if mmGet s pos 1 = 1 then (none, pos + 1, numbits) else (some (some (top + 2 ^ esc - 1)), pos + 1, numbits))
+      else (some (some (top + d2)), pos, numbits)
+  else (some (some d), pos, numbits)
+
+/-- a decoded value of an 8-bit block: translation table, delta predictor, output -/
+def mmPut8 (ptable : Array UInt8) (delta : Bool) (st : MmSt) (v : Nat) : MmSt :=
+  let n0 := (ptable[v]?.getD 0).toNat
+  let n := if delta then (n0 + st.oldval) % 256 else n0
+  mmWrite8 { st with oldval := if delta then n else st.oldval, p := st.p + 1 } n
+
+/-- a decoded value of a 16-bit block: sign folding, delta predictor or sign bit flip, two output bytes -/
+def mmPut16 (delta abs16 : Bool) (st : MmSt) (v : Nat) : MmSt :=
+  let z := if v % 2 = 1 then (65536 - (v + 1) / 2 % 65536) % 65536 else v / 2
+  let n := if delta then (z + st.oldval) % 65536 else if abs16 then z else (if z / 32768 % 2 = 1 then z - 32768 else z + 32768)
+  mmWrite8 (mmWrite8 { st with oldval := if delta then n else st.oldval, p := st.p + 2 } (n % 256)) (n / 256)
+
+def mmLoop8 (s : Array UInt8) (ptable : Array UInt8) (delta : Bool) (subs : List (Nat × Nat)) : Nat → MmSt → Option (Array UInt8)
+  | 0, _ => none
+  | fuel + 1, st =>
+    match mmReadCode s Xmp.Gen.Depackers.mmCmd8 Xmp.Gen.Depackers.mmFetch8 8 3 0xf8 st.pos st.numbits with
+    | (none, _, _) => some st.out
+    | (some v?, pos, nb) =>
+      let st := { st with pos := pos, numbits := nb }
+      let st := match v? with
+        | none => st
+        | some v => mmPut8 ptable delta st v
+      match mmNextSub subs st with
+      | none => none
+      | some (st, true) => some st.out
+      | some (st, false) => mmLoop8 s ptable delta subs fuel st
+
+def mmLoop16 (s : Array UInt8) (delta abs16 : Bool) (subs : List (Nat × Nat)) : Nat → MmSt → Option (Array UInt8)
+  | 0, _ => none
+  | fuel + 1, st =>
+    match mmReadCode s Xmp.Gen.Depackers.mmCmd16 Xmp.Gen.Depackers.mmFetch16 16 4 0xfff0 st.pos st.numbits with
+    | (none, _, _) => some st.out
+    | (some v?, pos, nb) =>
+      let st := { st with pos := pos, numbits := nb }
+      let st := match v? with
+        | none => st
+        | some v => mmPut16 delta abs16 st v
+      match mmNextSub subs st with
+      | none => none
+      | some (st, true) => some st.out
+      | some (st, false) => mmLoop16 s delta abs16 subs fuel st
+
+/-- `block_unpack_8bit` / `block_unpack_16bit` as the decoder parameter of `mmBlocks` -/
+def mmDec (flags numBits tt : Nat) (subs : List (Nat × Nat)) (stream out : Bytes) : Option Bytes :=
+  let delta := flags / Xmp.Gen.Depackers.mmFlagDelta % 2 = 1
+  let fuel := 8 * stream.length + (subs.map (·.2)).sum + 64
+  match subs with
+  | [] => none
+  | (p0, _) :: _ =>
+    if flags / Xmp.Gen.Depackers.mmFlag16Bit % 2 = 1 then
+      if p0 ≥ out.length then none
+      else
+        (mmLoop16 (stream.drop tt).toArray delta (flags / Xmp.Gen.Depackers.mmFlagAbs16 % 2 = 1) subs fuel
+          { pos := 0, numbits := numBits % 256, j := 0, p := 0, oldval := 0, opos := p0, out := out.toArray }).map (·.toList)
+    else
+      let tab := stream.take 256
+      if tab.length < tt then none
+      else if p0 ≥ out.length then none
+      else
+        (mmLoop8 (stream.drop tt).toArray (tab ++ List.replicate (256 - tab.length) 0).toArray delta subs fuel
+          { pos := 0, numbits := numBits % 256, j := 0, p := 0, oldval := 0, opos := p0, out := out.toArray }).map (·.toList)
 
 def mmTable (f : Bytes) : Nat → Nat → Option (List Nat)
   | 0, _ => some []
@@ -73,7 +194,7 @@ def decrunchMmcmp (dec : Nat → Nat → Nat → List (Nat × Nat) → Bytes →
     else
       match mmTable f nblocks blktable with
       | none => none
-      | some table => mmBlocks dec f table (List.replicate filesize 0)
+      | some table => mmBlocks dec f table filesize (List.replicate filesize 0)
 
 def Env.withMmcmp (env : Env) (dec : Nat → Nat → Nat → List (Nat × Nat) → Bytes → Bytes → Option Bytes) : Env :=
   { env with other := fun n f => if n = "mmcmp" then decrunchMmcmp dec f else env.other n f }
@@ -103,5 +224,62 @@ def mmcmpWrap (blocks : List (List Bytes)) : Bytes :=
   let payloadLen := (blocks.map List.flatten).flatten.length
   [0x7a, 0x69, 0x52, 0x43, 0x4f, 0x4e, 0x69, 0x61] ++ le16 14 ++ le16 0x1300 ++ le16 blocks.length ++ le32 payloadLen ++
   le32 (24 + body.length) ++ [0, 0] ++ body ++ (mmOffsets 24 0 blocks).flatMap le32
+
+
+/-! ## a simple encoder for 8-bit packed blocks: identity translation table, code width fixed at 8 bits -/
+
+/-- symbols of an 8-bit block: the bytes themselves, or their differences to the previous byte of the *block*
+    (the predictor is not reset between sub-blocks) -/
+def mmSyms (delta : Bool) : Nat → Bytes → List Nat
+  | _, [] => []
+  | prev, b :: r => (if delta then (b.toNat + 256 - prev) % 256 else b.toNat) :: mmSyms delta b.toNat r
+
+/-- code of one symbol at width 7 (8 bits per plain code): values from 0xF8 on use the escape -/
+def mmCode8 (v : Nat) : List Bool :=
+  if v < 0xf8 then Lzw.natToBits 8 v
+  else Lzw.natToBits 8 0xff ++ Lzw.natToBits 3 (v - 0xf8) ++ (if v = 0xff then [false] else [])
+
+def mmIdentity : Bytes := (List.range 256).map UInt8.ofNat
+
+/-- packed data of an 8-bit block for the concatenated sub-block contents `data` -/
+def mmEncode8 (delta : Bool) (data : Bytes) : Bytes :=
+  mmIdentity ++ Lzw.packBits ((mmSyms delta 0 data).flatMap mmCode8)
+
+/-! ## writer: blocks of mixed kinds.  `none` = stored, `some delta` = 8-bit packed by `mmEncode8` (with/without DELTA) -/
+
+def mmPayloadK : Option Bool → Bytes → Bytes
+  | none, data => data
+  | some delta, data => mmEncode8 delta data
+
+def mmFlagsK : Option Bool → Nat
+  | none => 0
+  | some delta => Xmp.Gen.Depackers.mmFlagComp + (if delta then Xmp.Gen.Depackers.mmFlagDelta else 0)
+
+def mmTtK : Option Bool → Nat
+  | none => 0
+  | some _ => 256
+
+def mmBitsK : Option Bool → Nat
+  | none => 0
+  | some _ => 7
+
+def mmBlockBytesK (kind : Option Bool) (pos : Nat) (subs : List Bytes) : Bytes :=
+  le32 subs.flatten.length ++ le32 (mmPayloadK kind subs.flatten).length ++ le32 0 ++ le16 subs.length ++
+  le16 (mmFlagsK kind) ++ le16 (mmTtK kind) ++ le16 (mmBitsK kind) ++ mmSubTable pos subs ++ mmPayloadK kind subs.flatten
+
+def mmBodyK : Nat → List (Option Bool × List Bytes) → Bytes
+  | _, [] => []
+  | pos, b :: bs => mmBlockBytesK b.1 pos b.2 ++ mmBodyK (pos + b.2.flatten.length) bs
+
+def mmOffsetsK : Nat → Nat → List (Option Bool × List Bytes) → List Nat
+  | _, _, [] => []
+  | ofs, pos, b :: bs => ofs :: mmOffsetsK (ofs + (mmBlockBytesK b.1 pos b.2).length) (pos + b.2.flatten.length) bs
+
+/-- a complete file of stored and packed blocks; payload = concatenation of all sub-block contents -/
+def mmcmpWrapK (blocks : List (Option Bool × List Bytes)) : Bytes :=
+  let body := mmBodyK 0 blocks
+  let payloadLen := (blocks.map (fun b => b.2.flatten)).flatten.length
+  [0x7a, 0x69, 0x52, 0x43, 0x4f, 0x4e, 0x69, 0x61] ++ le16 14 ++ le16 0x1300 ++ le16 blocks.length ++ le32 payloadLen ++
+  le32 (24 + body.length) ++ [0, 0] ++ body ++ (mmOffsetsK 24 0 blocks).flatMap le32
 
 end Xmp.Container
